@@ -87,9 +87,35 @@ def _non_ascii_keys(node):
     return dict(node, children=kids)
 
 
+HELP_TEXTS = [
+    "One line.",
+    "First paragraph that runs\nover two lines.\n\nSecond paragraph with details.",
+    "Uses \"double\" and 'single' quotes, a # hash and a \\ backslash.",
+    "Indented continuation:\n    four spaces\n\tand a tab.",
+    'Three quotes \"\"\" inside, and the word pass: def x(): ...',
+    "Gr\u00f6\u00dfe in \u00b5m \u2014 nicht ASCII.",
+    "trailing colon:\nclass Oops:",
+]
+
+
+def _with_help(node, counter=None):
+    """Fields carry documentation (the help option): one line, several lines, quotes, hashes, code-like text."""
+    counter = counter if counter is not None else [0]
+    kids = []
+    for c in node["children"]:
+        if "children" in c:
+            c = _with_help(c, counter)
+        elif c["kind"] not in ("virtual", "method"):
+            counter[0] += 1
+            if counter[0] % 3:
+                c = dict(c, help=HELP_TEXTS[counter[0] % len(HELP_TEXTS)])
+        kids.append(c)
+    return dict(node, children=kids)
+
+
 def strategy(tier):
     spec = worlds.schema_spec(tier, depth=1, width=5 if tier == "quick" else 8,
-                              allow=("schema", "configtype", "schemalist", "virtual", "featureflag")).map(_non_ascii_keys)
+                              allow=("schema", "configtype", "schemalist", "virtual", "featureflag")).map(_non_ascii_keys).map(_with_help)
     spec = st.tuples(spec, st.booleans()).map(lambda t: dict(t[0], dynamic=t[0].get("dynamic") or t[1]))
     return st.fixed_dictionaries({
         "spec": spec, "methods": st.lists(_method(), max_size=3), "input": st.sampled_from(["schema", "config", "configtype"]),
